@@ -46,6 +46,8 @@ Definition add_current (t : trav) (r : option element) : trav :=
   {| t_cur := r; t_marks := t_marks t; t_path := t_path t ++ [path_entry r]; t_count := 0; t_render := None; t_sel := None |}.
 Definition set_assoc {V} (k : string) (v : V) (l : list (string * V)) : list (string * V) :=
   (k, v) :: filter (fun x => negb (String.eqb k (fst x))) l.
+Definition del_assoc {V} (k : string) (l : list (string * V)) : list (string * V) :=
+  filter (fun x => negb (String.eqb k (fst x))) l.
 Definition get_assoc {V} (k : string) (l : list (string * V)) : option V :=
   option_map snd (find (fun x => String.eqb k (fst x)) l).
 
@@ -305,7 +307,10 @@ Definition step (g : graph) (d : dtype) (s : stmt) (ts : list trav) : list trav 
   | SHasLabel ls => filter (fun t => match t_cur t with Some c => mem_str (e_label c) ls | None => false end) ts
   | SHasId ids => filter (fun t => match t_cur t with Some c => mem_str (e_gid c) ids | None => false end) ts
   | SHasKey ks => filter (fun t => forallb (path_exists t) ks) ts
-  | SAs n => map (fun t => {| t_cur := t_cur t; t_marks := match t_cur t with Some c => set_assoc n c (t_marks t) | None => t_marks t end;
+  | SAs n => map (fun t => {| t_cur := t_cur t;
+                              (* AddMark(name, current): on a traveler without a current element the name is bound to nothing,
+                                 also when it was bound before *)
+                              t_marks := match t_cur t with Some c => set_assoc n c (t_marks t) | None => del_assoc n (t_marks t) end;
                               t_path := t_path t; t_count := 0; t_render := None; t_sel := None |}) ts
   | SSelect [m] => map (fun t => add_current t (get_assoc m (t_marks t))) ts
   | SSelect ms => map (fun t => {| t_cur := None; t_marks := []; t_path := []; t_count := 0; t_render := None;
